@@ -17,8 +17,8 @@ def run_seed(sd):
     try:
         subprocess.run(["git", "-C", w, "apply", os.path.join(VERIF, "seeded", sd, "patch.diff")], check=True)
         for p in PROPS:
-            if p == "C20":
-                continue          # C20 rewrites lean/PsVerif/Generated/Alias.lean: run serially below
+            if p in ("C19", "C20"):
+                continue          # C19 / C20 rewrite lean/PsVerif/Generated/*.lean: run serially below
             env = dict(os.environ, PYSENSORS_REPO=w, VERIF_EVIDENCE_DIR=ev)
             r = subprocess.run([os.path.join(VERIF, "check"), p], cwd=VERIF, env=env, capture_output=True, text=True)
             concrete = any(l.startswith("VIOLATION") and "no-failing-input-found" not in l for l in r.stdout.splitlines())
@@ -33,16 +33,17 @@ with ThreadPoolExecutor(max_workers=6) as ex:
     for sd, res in ex.map(run_seed, only):
         out[sd] = res
         print(sd, "caught by:", [p for p, v in res.items() if v["exit"] == 1], flush=True)
-# C20 serially
+# C19 and C20 serially
 for sd in only:
     w = tempfile.mkdtemp(prefix=f"ps_mx_{sd}_"); os.rmdir(w)
     subprocess.run(["git", "-C", "/repo", "worktree", "add", "-q", "--detach", w, "HEAD"], check=True)
     ev = tempfile.mkdtemp(prefix="ps_mx_ev_")
     try:
         subprocess.run(["git", "-C", w, "apply", os.path.join(VERIF, "seeded", sd, "patch.diff")], check=True)
-        r = subprocess.run([os.path.join(VERIF, "check"), "C20"], cwd=VERIF, env=dict(os.environ, PYSENSORS_REPO=w, VERIF_EVIDENCE_DIR=ev), capture_output=True, text=True)
-        out[sd]["C20"] = {"exit": r.returncode, "concrete": any(l.startswith("VIOLATION") and "no-failing-input-found" not in l for l in r.stdout.splitlines())}
-        print(sd, "C20 exit", r.returncode, flush=True)
+        for p in ("C19", "C20"):
+            r = subprocess.run([os.path.join(VERIF, "check"), p], cwd=VERIF, env=dict(os.environ, PYSENSORS_REPO=w, VERIF_EVIDENCE_DIR=ev), capture_output=True, text=True)
+            out[sd][p] = {"exit": r.returncode, "concrete": any(l.startswith("VIOLATION") and "no-failing-input-found" not in l for l in r.stdout.splitlines())}
+            print(sd, p, "exit", r.returncode, flush=True)
     finally:
         subprocess.run(["git", "-C", "/repo", "worktree", "remove", "--force", w])
         shutil.rmtree(ev, ignore_errors=True)
